@@ -642,6 +642,35 @@ theorem ghost_spec : ∀ (evs : List Ev) (y : Sys),
             List.map_cons, List.map_nil, List.singleton_append]
           exact List.Sublist.cons_cons _ i3
 
+/-- with no ordinal on record (a fresh start) every entry is a fresh job and the `k`-th entry has the
+    ordinal `spawned + k` -/
+theorem ghost_ords_of_no_record (evs : List Ev) (y : Sys) (h0 : y.s.locked0Ord = []) :
+    (∀ e ∈ ghost y evs, e.fresh = true) ∧
+    (ghost y evs).map (·.ord) = List.range' y.s.spawned (ghost y evs).length := by
+  obtain ⟨_, h2, h3⟩ := ghost_spec evs y
+  rw [h0] at h3
+  have hnil : reissueOrds (ghost y evs) = [] := by
+    have := List.eq_nil_of_sublist_nil h3
+    simpa using this
+  have hall : ∀ e ∈ ghost y evs, e.fresh = true := by
+    intro e he
+    cases hf : e.fresh with
+    | true => rfl
+    | false =>
+      exfalso
+      have : e.ord ∈ reissueOrds (ghost y evs) := by
+        unfold reissueOrds
+        exact List.mem_map.mpr ⟨e, List.mem_filter.mpr ⟨he, by simp [hf]⟩, rfl⟩
+      rw [hnil] at this
+      simp at this
+  have hfil : (ghost y evs).filter (·.fresh) = ghost y evs :=
+    List.filter_eq_self.mpr hall
+  refine ⟨hall, ?_⟩
+  unfold freshOrds at h2
+  rw [hfil] at h2
+  rw [List.length_map] at h2
+  exact h2
+
 /-- the seed and entropy never change along a history; the spawn counter counts the fresh jobs -/
 theorem run_spawned : ∀ (evs : List Ev) {y y' : Sys}, run y evs = .ok y' →
     y'.s.seed = y.s.seed ∧ y'.s.entropy = y.s.entropy ∧
